@@ -63,6 +63,34 @@ func CheckCell(raw []byte, typ byte, meta uint16, unsigned bool, want []byte) st
 			return fmt.Sprintf("value changed after a later decode was overwritten: now %q, was %q (decoded values share memory)", Clip(first), Clip(want))
 		}
 	}
+	// the cell as the very last bytes of its buffer (length == capacity): the
+	// last cell of the last row of an event without checksum has nothing behind
+	// it, a decoder that loads more bytes than the cell has panics there
+	if why := CheckCellAtEnd(raw, typ, meta, unsigned, want); why != "" {
+		return why
+	}
+	return ""
+}
+
+// CheckCellAtEnd decodes raw from a buffer that ends with the cell.
+func CheckCellAtEnd(raw []byte, typ byte, meta uint16, unsigned bool, want []byte) string {
+	exact := make([]byte, len(raw))
+	copy(exact, raw)
+	exact = exact[:len(raw):len(raw)]
+	var txt []byte
+	var n int
+	var err error
+	pan := chk.Catch(func() { txt, n, err = replication.CellBytes(exact, 0, typ, meta, unsigned) })
+	switch {
+	case pan != "":
+		return "panic when the cell is the last bytes of its buffer (nothing behind it): " + pan
+	case err != nil:
+		return "error when the cell is the last bytes of its buffer: " + err.Error()
+	case n != len(raw):
+		return fmt.Sprintf("consumed %d bytes, the value has %d (cell at the end of its buffer)", n, len(raw))
+	case !bytes.Equal(txt, want):
+		return fmt.Sprintf("decoded %q, expected %q (cell at the end of its buffer)", Clip(txt), Clip(want))
+	}
 	return ""
 }
 
